@@ -34,6 +34,13 @@ META = {
     "design_ref": "5.6 C37 / C35 / C38",
 }
 
+ORDERS = ["base_first", "subclass_first"]
+# What the application defines and uses before the model of a case (Bind.tla MOrders).  cqlengine's column classes form
+# a hierarchy (BigInt, SmallInt, TinyInt < Integer; Ascii < Text); anything a column class remembers at class level is
+# inherited, so which of them was used first is part of the input.
+PRIMERS = {"base_first": [("int",), ("text",), ("int", "text")],
+           "subclass_first": [("bigint",), ("smallint",), ("tinyint",), ("ascii",), ("bigint", "smallint", "tinyint")]}
+
 OPS = ["get", "count", "list", "update", "qdelete", "create", "save", "iupdate", "idelete", "lwt_update", "ttl_update"]
 
 
@@ -79,6 +86,34 @@ def run_op(env, model, op, keyvals):
     return list(s.executed)
 
 
+def prime(env, order):
+    """Define and use the models that precede the cases of `order` in the application's life."""
+    vals = {"int": 258, "text": "a", "bigint": 65537, "smallint": 513, "tinyint": 5, "ascii": "xy"}
+    for tys in PRIMERS[order]:
+        model = env.model(tys)
+        run_op(env, model, "create", [vals[t] for t in tys])
+        run_op(env, model, "get", [vals[t] for t in tys])
+
+
+def new_env(ctx, order):
+    """A fresh application (cqlengine imported anew) that has defined and used the primer models of `order`;
+    None (after reporting a violation) when the mapper fails doing so."""
+    try:
+        env = B.MapperEnv(4, fresh=True)
+    except Exception as ex:          # noqa: a mutated mapper may already fail when a connection is registered
+        ctx.violation("registering a connection with cqlengine raised %s: %s" % (type(ex).__name__, str(ex)[:300]),
+                      replay={"setup": "register_connection"}, signature="setup:register_connection:raised")
+        return None
+    try:
+        prime(env, order)
+    except Exception as ex:          # noqa
+        ctx.violation("defining / using the first models (%s) raised %s: %s" % (order, type(ex).__name__, str(ex)[:300]),
+                      replay={"setup": "primer", "order": order}, signature="setup:primer:%s:raised" % order)
+        env.close()
+        return None
+    return env
+
+
 def evaluate(env, case):
     tys = list(case["tys"])
     keyvals = [B.py_value(t, v) for t, v in zip(tys, case["vals"])]
@@ -100,7 +135,7 @@ def compare(env, st):
     exp = list(out["rk"]["b"])
     obs = evaluate(env, case)
     rep = {"case": case, "spec": exp, "code": obs}
-    head = "%s:%dkeys" % (case["op"], len(case["tys"]))
+    head = "%s:%dkeys:%s" % (case["op"], len(case["tys"]), case.get("order", "base_first"))
     if obs["raised"]:
         return ("mapper operation raised %s" % obs["raised"], head + ":raised", rep)
     if not obs["statements"]:
@@ -120,72 +155,86 @@ def compare(env, st):
 def run(ctx):
     types = {"int", "text", "bigint", "boolean", "uuid"} if ctx.quick else \
             {"int", "text", "bigint", "boolean", "uuid", "smallint", "tinyint", "ascii", "blob"}
-    consts = {"MaxCols": 1, "MaxPk": 0, "PVs": {4}, "NVals": 1, "Partial": False, "MTypes": types, "MMaxPk": 3, "MOps": set(OPS)}
+    consts = {"MaxCols": 1, "MaxPk": 0, "PVs": {4}, "NVals": 1, "NTextVals": 1, "Partial": False, "MTypes": types, "MMaxPk": 3,
+              "MOps": set(OPS), "MOrders": set(ORDERS), "MEmpty": not ctx.quick}
     cfg = tlc.write_cfg(os.path.join(ctx.scratch, "mapper.cfg"), init="MapperInit", constants=consts,
                         invariants=["MapperKeyIsComposite"], deadlock=False)
     res, states = tlc.enumerate_states("Bind", cfg, ctx.scratch, timeout=900 if ctx.quick else 3000)
     ctx.add_tlc(res, "exhaustive (MapperInit)")
-    ctx.note("constants", {"MTypes": sorted(types), "MMaxPk": 3, "MOps": OPS})
+    ctx.note("constants", {"MTypes": sorted(types), "MMaxPk": 3, "MOps": OPS, "MOrders": ORDERS, "MEmpty": not ctx.quick})
     ctx.note("exhaustive", True)
     if res.violation:
         ctx.violation("TLC: %s violated on Bind.tla" % res.invariant, replay={"trace": [dict(s) for _, s in res.trace()]},
                       signature="spec:%s" % res.invariant)
         return
     if not any(len(s["case"]["tys"]) == 3 for s in states) or not any(len(s["case"]["tys"]) == 1 for s in states) or \
-            {s["case"]["op"] for s in states} != set(OPS):
-        raise tlc.MachineryError("vacuity: single / composite keys or some operation not enumerated")
-    try:
-        env = B.MapperEnv(4)
-    except Exception as ex:          # noqa: a mutated mapper may already fail when a connection is registered
-        ctx.violation("registering a connection with cqlengine raised %s: %s" % (type(ex).__name__, str(ex)[:300]),
-                      replay={"setup": "register_connection"}, signature="setup:register_connection:raised")
-        return
+            {s["case"]["op"] for s in states} != set(OPS) or {s["case"]["order"] for s in states} != set(ORDERS) or \
+            not any(s["case"]["order"] == "base_first" and "int" in s["case"]["tys"] and "bigint" in s["case"]["tys"] for s in states):
+        raise tlc.MachineryError("vacuity: single / composite keys, some operation, some definition order or a key mixing "
+                                 "Integer with a subclass not enumerated")
     by_signature = {}
-    try:
-        n = statements = 0
-        for st in states:
-            case = st["case"]
-            r = compare(env, st)
-            n += 1
-            if len(case["tys"]) >= 2:
-                ctx.nontrivial(n)
-            if n % (len(states) // 4 + 1) == 3:
-                ctx.sample({"case": case, "routing_key": list(st["out"]["rk"]["b"])})
-            if r:
-                by_signature[r[1]] = by_signature.get(r[1], 0) + 1
-                if by_signature[r[1]] == 1:
-                    ctx.violation("%s | key types %s values %r op %s" % (r[0], list(case["tys"]),
-                                  [B.py_value(t, v) for t, v in zip(case["tys"], case["vals"])], case["op"]),
-                                  replay=r[2], signature=r[1])
-        ctx.evaluations = n
-        ctx.traces_validated = n
-        ctx.note("model_classes_built", len(env._models))
-        ctx.note("failing_cases_by_signature", by_signature)
-        # binding self-test: corrupted expectations must be noticed
-        probe = next(s for s in states if len(s["case"]["tys"]) == 2)
-        good = list(probe["out"]["rk"]["b"])
-        rejected = 0
-        for bad in (good[:-1], good[::-1], []):
-            rejected += bool(compare(env, {"case": probe["case"], "out": {"rk": {"t": "bytes", "b": tuple(bad)}}}))
-        # when the code under test already diverges from the definition the probe case may itself be a failing one
-        # (or the corrupted expectation may be what the broken code returns); the self-test is then not meaningful and
-        # must not mask the violation with a machinery failure
-        if rejected != 3 and not by_signature:
-            raise tlc.MachineryError("binding self-test failed: %d of 3 corrupted expectations detected" % rejected)
-        ctx.note("binding_selftest", {"corrupted_rejected": rejected, "meaningful": not by_signature})
-    finally:
-        env.close()
+    n = 0
+    rejected = models = 0
+    for order in ORDERS:
+        # one application per order: cqlengine imported anew, the primer models defined and used, then every case of
+        # that order on SHARED column / model classes (a model class per key type list, reused by all its cases)
+        env = new_env(ctx, order)
+        if env is None:
+            by_signature["setup"] = 1
+            continue
+        try:
+            group = [s for s in states if s["case"]["order"] == order]
+            for st in group:
+                case = st["case"]
+                r = compare(env, st)
+                n += 1
+                if len(case["tys"]) >= 2:
+                    ctx.nontrivial(n)
+                if n % (len(states) // 4 + 1) == 3:
+                    ctx.sample({"case": case, "routing_key": list(st["out"]["rk"]["b"])})
+                if r:
+                    by_signature[r[1]] = by_signature.get(r[1], 0) + 1
+                    if by_signature[r[1]] == 1:
+                        ctx.violation("%s | key types %s values %r op %s, application history: %s" % (
+                            r[0], list(case["tys"]), [B.py_value(t, v) for t, v in zip(case["tys"], case["vals"])], case["op"],
+                            order), replay=r[2], signature=r[1])
+            models += len(env._models)
+            # binding self-test: corrupted expectations must be noticed
+            probe = next(s for s in group if len(s["case"]["tys"]) == 2)
+            good = list(probe["out"]["rk"]["b"])
+            for bad in (good[:-1], good[::-1], []):
+                rejected += bool(compare(env, {"case": probe["case"], "out": {"rk": {"t": "bytes", "b": tuple(bad)}}}))
+        finally:
+            env.close()
+    ctx.evaluations = n
+    ctx.traces_validated = n
+    ctx.note("model_classes_built", models)
+    ctx.note("failing_cases_by_signature", by_signature)
+    # when the code under test already diverges from the definition the probe case may itself be a failing one (or the
+    # corrupted expectation may be what the broken code returns); the self-test is then not meaningful and must not mask
+    # the violation with a machinery failure
+    if rejected != 3 * len(ORDERS) and not by_signature:
+        raise tlc.MachineryError("binding self-test failed: %d of %d corrupted expectations detected" % (rejected, 3 * len(ORDERS)))
+    ctx.note("binding_selftest", {"corrupted_rejected": rejected, "meaningful": not by_signature})
     ctx.assumptions += ["only the bounded key type alphabet (see level_note); component encodings written out in Bind.tla",
                         "statements observed at session.execute of a recording session registered via register_connection(session=...)",
-                        "protocol version 4 (the covered scalar encodings do not depend on it)"]
+                        "protocol version 4 (the covered scalar encodings do not depend on it)",
+                        "application history = which models were defined and used first: base column classes (Integer, Text) or "
+                        "their subclasses (BigInt, SmallInt, TinyInt, Ascii); one freshly imported cqlengine per history, column "
+                        "and model classes shared by all cases of that history"]
 
 
 def replay(ctx, obj):
-    env = B.MapperEnv(4)
+    if "case" not in obj:
+        print("setup failure, nothing to replay:", obj)
+        return
+    case = obj["case"]
+    env = new_env(ctx, case.get("order", "base_first"))
+    if env is None:
+        return
     try:
-        case = obj["case"]
         obs = evaluate(env, case)
-        print("key types %s values %s op %s" % (case["tys"], case["vals"], case["op"]))
+        print("application history %s; key types %s values %s op %s" % (case.get("order"), case["tys"], case["vals"], case["op"]))
         print("spec routing key:", obj["spec"])
         print("code:", obs)
         r = compare(env, {"case": case, "out": {"rk": {"t": "bytes", "b": tuple(obj["spec"])}}})
